@@ -1,7 +1,7 @@
 """C03 Every single injected fault is rejected and localised (localisation wiring)."""
 import ast
 
-from ..core import Ob, Rule, AnalysisError, norm, KeyMaker
+from ..core import require_idiom, Ob, Rule, AnalysisError, norm, KeyMaker
 from ..cfg import path_of
 from .. import astutil as A
 
@@ -212,6 +212,7 @@ def r3_positions(ctx):
     f = ctx.func('error_handler', 'err_ele.__init__')
     txt = ast.unparse(f)
     ok = 'self.ele_pos = map_node.parent.seq' in txt and 'self.subele_pos = map_node.seq' in txt and 'self.ele_pos = map_node.seq' in txt
+    require_idiom(ok, 'c03.py:214')
     yield Ob('error_handler:err_ele.__init__ element/component position from the map node', ok, ctx.floc(f), '' if ok else 'position assignment changed')
 
 
